@@ -71,7 +71,7 @@ type Dim struct {
 	H int64 `gorm:"column:hgt"`
 }
 type P3 struct {
-	ID   uint16 `gorm:"primaryKey"`
+	ID uint16 `gorm:"primaryKey"`
 	Dim
 	Box  Dim      `gorm:"embedded;embeddedPrefix:box_"`
 	Ren  string   `gorm:"column:renamed_col;index"`
@@ -83,7 +83,7 @@ type P3 struct {
 	U64  uint64
 }
 type P3v2 struct {
-	ID   uint16 `gorm:"primaryKey"`
+	ID uint16 `gorm:"primaryKey"`
 	Dim
 	Box  Dim      `gorm:"embedded;embeddedPrefix:box_"`
 	Ren  string   `gorm:"column:renamed_col;index"`
@@ -200,6 +200,39 @@ type P8v2 struct {
 }
 
 func (P8v2) TableName() string { return "p8" }
+
+// ---- P9: index options on any member field, type: tags carrying their length, fields excluded
+// from migration whose column does not exist ----
+type P9 struct {
+	ID     uint   `gorm:"primaryKey"`
+	U1     string `gorm:"size:10;uniqueIndex:idx_p9_u"`
+	U2     int64  `gorm:"uniqueIndex:idx_p9_u,where:u2 > 100"` // partial: option on the second member
+	Code   string `gorm:"type:varchar(32)"`
+	Ch     string `gorm:"type:char(8);index"`
+	Shadow string `gorm:"-:migration"`
+	Tnt    string `gorm:"size:10"`
+	Eml    string `gorm:"size:20"`
+	Arch   int64
+	K1     int64 `gorm:"index:idx_p9_k,priority:2"`
+	K2     int64 `gorm:"index:idx_p9_k,priority:1,sort:desc"`
+}
+type P9v2 struct {
+	ID     uint   `gorm:"primaryKey"`
+	U1     string `gorm:"size:10;uniqueIndex:idx_p9_u"`
+	U2     int64  `gorm:"uniqueIndex:idx_p9_u,where:u2 > 100"`
+	Code   string `gorm:"type:varchar(32)"`
+	Ch     string `gorm:"type:char(8);index"`
+	Shadow string `gorm:"-:migration"`
+	Tnt    string `gorm:"size:10;uniqueIndex:idx_p9_te"`
+	Eml    string `gorm:"size:20;uniqueIndex:idx_p9_te,where:arch = 0"`
+	Arch   int64
+	K1     int64  `gorm:"index:idx_p9_k,priority:2"`
+	K2     int64  `gorm:"index:idx_p9_k,priority:1,sort:desc"`
+	Ghost  string `gorm:"-:migration"`
+	Extra  string `gorm:"type:varchar(16)"`
+}
+
+func (P9v2) TableName() string { return "p9" }
 
 // ---- reorder family: chain and diamond of belongs-to dependencies ----
 type RA struct {
